@@ -8,7 +8,6 @@ import (
 	"os"
 	"runtime"
 	"strings"
-	"syscall"
 	"time"
 
 	"github.com/cloudflare/pat-go/ecdsa"
@@ -142,7 +141,6 @@ type c03state struct {
 }
 
 func (c c03) Execute(p *core.Plan) *core.Result {
-	limitAddressSpace()
 	res := core.NewResult()
 	w := BuildWorld(p, res, false)
 	st := &c03state{w: w, res: res, base: map[int][]byte{}, lens: map[int][]lenField{}}
@@ -370,20 +368,6 @@ func (st *c03state) mutate(kind string, stp core.Step, tgt int) [][]byte {
 		return [][]byte{append(append([]byte(nil), b[:cut%len(b)]...), o[cut%len(o):]...)}
 	}
 	return world.Mutate(kind, a, b)
-}
-
-var c03limited bool
-
-// limitAddressSpace caps the worker's address space so that an attacker-chosen allocation
-// fails fast (fatal error: out of memory -> process death -> attributed through the journal)
-// instead of eating the machine.
-func limitAddressSpace() {
-	if c03limited {
-		return
-	}
-	c03limited = true
-	lim := syscall.Rlimit{Cur: 12 << 30, Max: 12 << 30}
-	syscall.Setrlimit(syscall.RLIMIT_AS, &lim)
 }
 
 func (st *c03state) handle(m *simnet.Msg, s *world.Session, o *world.Outcome, op string) {
